@@ -4,7 +4,9 @@
     ENT||CS split in 11-bit groups -> words;  12/15/18/21/24 words.
     seed = PBKDF2-HMAC-SHA512(password = NFKD(sentence), salt = "mnemonic" + NFKD(passphrase), 2048 rounds, 64 bytes)
 
-The word lists are data: read from the files btclib ships (one NFKD word per line).
+The word lists are data: read from the model's own copies under vectors/wordlists (one word per line; the copies are the
+upstream files -- english.txt is checked against the digest bitcoin/bips publishes, the rest are pinned in SHA256SUMS), so that
+a word changed in a list the library ships shows as a difference on every sentence that uses it.
 The model never imports btclib.
 """
 
@@ -14,8 +16,20 @@ import hashlib
 import os
 import unicodedata
 
-REPO = os.environ.get("VERIF_REPO", "/repo")
-DATA = os.path.join(REPO, "btclib", "mnemonic", "_data")
+DATA = os.path.join(os.path.dirname(os.path.dirname(os.path.dirname(os.path.abspath(__file__)))), "vectors", "wordlists")
+ENGLISH_SHA256 = "2f5eed53a4727b4bf8880d8f3f199efc90e58503646d9ff8eff3a2ed3b24dbda"  # bip-0039/english.txt
+
+
+def check_word_files() -> None:
+    """the vendored lists are the pinned ones (raises ValueError)"""
+    with open(os.path.join(DATA, "SHA256SUMS"), encoding="ascii") as f:
+        pinned = dict(reversed(line.split()) for line in f if line.strip())
+    if pinned.get("english.txt") != ENGLISH_SHA256:
+        raise ValueError("english.txt is not pinned to the published digest")
+    for name, digest in pinned.items():
+        with open(os.path.join(DATA, name), "rb") as f:
+            if hashlib.sha256(f.read()).hexdigest() != digest:
+                raise ValueError(f"vectors/wordlists/{name} differs from its pinned digest")
 
 # language code -> file (BIP39's ten lists + the two trezor/python-mnemonic adds)
 FILES = {
